@@ -1,3 +1,4 @@
 import NunVerif.Model.Session
 import NunVerif.Props.C01
+import NunVerif.Props.C02
 import NunVerif.Props.C15
